@@ -110,6 +110,11 @@ func (n *authNet) c11Online(m *c11Monitor, x sentReq) {
 				if x.Dest != host {
 					dest = "another-host-or-unnamed-realm"
 				}
+				if x.Dest == "elsewhere.example" {
+					// where the named realm redirected the client to: identified separately, with the method
+					// (a re-sent POST body is a different matter from a copied header)
+					dest = "redirect-target-of-the-realm/" + x.Method
+				}
 				m.viols = append(m.viols, [3]string{fmt.Sprintf("secret-leak/%s/to-%s-%s", kind, x.Kind, dest), "secrets stay confined", why})
 			}
 		}
@@ -249,7 +254,7 @@ func c11Cases(thorough bool) []c11Case {
 	a0 := &authHostCfg{Host: "a.example", Scheme: "raw", Creds: "basic", TokenMode: "grant", Lifetime: 2}
 	b0 := &authHostCfg{Host: "b.example:5000", Scheme: "bearer", Challenge: "exact", Creds: "refresh", TokenMode: "grant", Lifetime: 2}
 	shapes := c11ChallengeShapes(a0, b0.realmHost(), b0.Host)
-	faults := []string{"", "401", "403", "500", "302", "badjson", "notoken", "empty200"}
+	faults := []string{"", "401", "403", "500", "302", "badjson", "notoken", "empty200", "302-elsewhere", "303-elsewhere", "307-elsewhere", "308-elsewhere"}
 	creds := []string{"none", "basic", "refresh", "static", "basic+refresh"}
 	events := []c11Event{}
 	for _, h := range []string{"a.example", "b.example:5000"} {
@@ -320,6 +325,16 @@ func c11Cases(thorough bool) []c11Case {
 							}
 							for _, h := range hists {
 								out = append(out, c11Case{Hosts: []*authHostCfg{&a, &b}, History: h})
+							}
+							if bScheme == "bearer" && fault == "" && sn == "bearer" && !failCfg {
+								// a registry whose second challenge (answering the fresh token) asks for more than its first
+								be := b
+								be.Challenge = "escalating"
+								for _, h := range hists {
+									if len(h) <= 2 {
+										out = append(out, c11Case{Hosts: []*authHostCfg{&a, &be}, History: h})
+									}
+								}
 							}
 							if fault == "" && (sn == "bearer" || sn == "basic" || sn == "bearer+basic-lines") && !failCfg {
 								b2 := b
